@@ -46,7 +46,146 @@ def c02(tier, seed):
     return c.finish("model_checking", "isXSS in each of the 5 contexts over every byte string of length <= %d" % N, {"W_free_bytes": N})
 
 
-PROPS = {"C01": c01, "C02": c02}
+def c16(tier, seed):
+    c = Check("C16", tier, seed)
+    NU, NW = (5, 3) if tier == "quick" else (7, 4)
+    jobs = []
+    for f in range(5):
+        for n in range(0, NU + 1):
+            if n <= 3:
+                jobs.append(job("HLex", [n, f], safety=True, witness_every=25))
+            else:
+                jobs += part_jobs("HLex", [n, f], SQL_PARTS, safety=True, witness_every=400)
+    c.run_group("U-first-token", BASE + H("h_sqli.go"), jobs, expect_labels=["token", "end"])
+    jobs = []
+    for f in range(5):
+        for n in range(0, NW + 1):
+            if n <= 2:
+                jobs.append(job("HStream", [n, f], safety=True, witness_every=25))
+            else:
+                jobs += part_jobs("HStream", [n, f], SQL_PARTS, safety=True, witness_every=400)
+    c.run_group("W-stream", BASE + H("h_sqli.go"), jobs, expect_labels=["end"])
+    return c.finish("model_checking", "per-token shape (value = input slice, clip, span, class) on the first scan step for all inputs <= %d bytes in 5 modes; chain conditions over the whole token stream for all inputs <= %d bytes in 5 modes" % (NU, NW),
+                    {"U_free_bytes": NU, "W_free_bytes": NW, "modes": 5})
+
+
+
+SQLI = BASE + H("h_sqli.go")
+XSSU = BASE + H("h_xss_units.go")
+XSSA = BASE + H("h_xss_api.go")
+STR = BASE + H("h_strlit.go") + S("strlit.go")
+
+
+def wjobs(entry, nmax, extra=(), partition=SQL_PARTS, split_from=3, **kw):
+    """whole-API jobs for all lengths 0..nmax; lengths >= split_from are split on the first byte."""
+    jobs = []
+    for n in range(0, nmax + 1):
+        if n < split_from:
+            jobs.append(job(entry, [n] + list(extra), witness_every=kw.get("wsmall", 25), **{k: v for k, v in kw.items() if k not in ("wsmall", "wbig")}))
+        else:
+            jobs += part_jobs(entry, [n] + list(extra), partition, witness_every=kw.get("wbig", 400), **{k: v for k, v in kw.items() if k not in ("wsmall", "wbig")})
+    return jobs
+
+
+def c08(tier, seed):
+    c = Check("C08", tier, seed)
+    N = 3 if tier == "quick" else 4
+    c.run_group("W-verdict-fp", SQLI, wjobs("HVerdictFp", N, safety=True), expect_labels=["negative", "positive"])
+    jobs = []
+    for f in range(5):
+        jobs += wjobs("HFpLen", N, extra=[f], safety=True)
+    c.run_group("W-fp-len", SQLI, jobs, expect_labels=["checked"])
+    return c.finish("model_checking", "verdict/fingerprint relation of IsSQLi for all inputs <= %d bytes; per-context fingerprint length and alphabet for all inputs <= %d bytes in 5 modes" % (N, N), {"W_free_bytes": N})
+
+
+def c12(tier, seed):
+    c = Check("C12", tier, seed)
+    N = 3 if tier == "quick" else 4
+    c.run_group("W-cascade", SQLI, wjobs("HCascade", N, safety=True), expect_labels=["checked"])
+    jobs = []
+    for q in range(2):
+        for my in range(2):
+            jobs += [j for j in wjobs("HVirtualQuote", N, extra=[q, my], safety=True) if j["args"][0] >= 1]  # the property is stated for s != ""
+    c.run_group("W-virtual-quote", SQLI, jobs, expect_labels=["checked"])
+    return c.finish("model_checking", "IsSQLi vs the documented cascade evaluated on fresh state, and inside-quote vs quote+input as-is, for all inputs <= %d bytes" % N, {"W_free_bytes": N})
+
+
+def c13(tier, seed):
+    c = Check("C13", tier, seed)
+    NO, NE, NP = (4, 5, 4) if tier == "quick" else (5, 6, 5)
+    c.run_group("W-or", XSSA, wjobs("HXssOr", NO, partition=XSS_PARTS, split_from=4, safety=True), expect_labels=["checked"])
+    jobs = []
+    for ctx in range(1, 5):
+        jobs += wjobs("HXssEmbed", NE, extra=[ctx], partition=XSS_PARTS, split_from=5, safety=True)
+    c.run_group("W-embed", XSSA, jobs, expect_labels=["checked"])
+    jobs = []
+    for k in (1, 2):
+        jobs += wjobs("HXssPrefix", NP, extra=[k], partition=XSS_PARTS, split_from=9, safety=True)
+    c.run_group("W-prefix", XSSA, jobs, expect_labels=["checked"])
+    return c.finish("model_checking", "IsXSS = OR of contexts (inputs <= %d); context verdict = verdict of embedded markup (inputs <= %d, 4 contexts); prefix without '<' (<= 2 bytes) + input <= %d" % (NO, NE, NP),
+                    {"or_free_bytes": NO, "embed_free_bytes": NE, "prefix_free_bytes": NP})
+
+
+def c15(tier, seed):
+    c = Check("C15", tier, seed)
+    NW, NC = (4, 6) if tier == "quick" else (5, 7)
+    c.run_group("W", XSSA, wjobs("HXssNoLtEq", NW, partition=XSS_PARTS, split_from=4, safety=True), expect_labels=["checked"])
+    jobs = []
+    for ctx in range(5):
+        jobs += wjobs("HXssNoLtEqCtx", NC, extra=[ctx], partition=XSS_PARTS, split_from=5, safety=True)
+    c.run_group("W-ctx", XSSA, jobs, expect_labels=["checked"])
+    return c.finish("model_checking", "IsXSS false for every string over bytes minus {<,=} of length <= %d; per context for length <= %d" % (NW, NC), {"W_free_bytes": NW, "ctx_free_bytes": NC})
+
+
+def c17(tier, seed):
+    c = Check("C17", tier, seed)
+    NS, NC = (5, 7) if tier == "quick" else (7, 10)
+    jobs = []
+    for st in range(22):
+        for n in range(0, NS + 1):
+            for p in (0, 1):
+                if p <= n:
+                    jobs.append(job("HStateRun", [n, st, p], safety=True, witness_every=40))
+    c.run_group("U-state-run", XSSU, jobs, expect_labels=["stopped"])
+    jobs = []
+    for w in range(9):
+        for n in range(0, NC + 1):
+            jobs.append(job("HConstruct", [n, w], safety=True, witness_every=20))
+    for w in range(6):
+        for n in range(0, NC + 1):
+            jobs.append(job("HConstructAPI", [n, w], safety=True, witness_every=20))
+    c.run_group("U-first-terminator", XSSU, jobs, expect_labels=["checked"])
+    return c.finish("model_checking", "range/order/count of every token from each of the 22 tokenizer states on every input <= %d bytes (entry offsets 0 and 1); first-terminator oracle for the 9 delimited constructs on every body <= %d bytes" % (NS, NC),
+                    {"state_run_free_bytes": NS, "construct_body_free_bytes": NC})
+
+
+def c18(tier, seed):
+    c = Check("C18", tier, seed)
+    N = 7 if tier == "quick" else 10
+    jobs = []
+    for mode in range(3):
+        for n in range(max(1, mode), N + 1):
+            jobs.append(job("HStrCore", [n, mode], safety=True, witness_every=20))
+    for form in range(8):
+        for f in range(5):
+            if (form <= 6) != (f <= 1):
+                continue
+            lo = {0: 1, 1: 1, 2: 2, 3: 2, 4: 3, 5: 2, 6: 3, 7: 1}[form]
+            for n in range(lo, N):
+                jobs.append(job("HStrLex", [n, form, f], safety=True, witness_every=20))
+    for nq in range(2):
+        for n in range(3 + nq, N + 2):
+            jobs.append(job("HQStr", [n, nq], safety=True, witness_every=10))
+    for k in range(0, 4):
+        for n in range(k + 2, N + 2):
+            jobs.append(job("HDollar", [n, k], safety=True, witness_every=10))
+    c.run_group("U-literals", STR, jobs, expect_labels=["checked"])
+    return c.finish("model_checking", "every literal form (quoted real/virtual/prefixed/variable, q-quote with any delimiter byte >= 33, dollar-quote with tags of 0-3 letters) on every input up to %d bytes vs the first-terminator oracle" % N,
+                    {"U_free_bytes": N})
+
+
+PROPS = {"C01": c01, "C02": c02, "C08": c08, "C12": c12, "C13": c13, "C15": c15, "C16": c16, "C17": c17, "C18": c18}
+
 
 
 def replay_saved(path):
